@@ -387,7 +387,7 @@ func c16KeptRows(c *core.Ctx, sh gen.Shape, pristine gen.Data) *core.Violation {
 		return nil
 	}
 	n := min(len(model), 64)
-	for _, subject := range []string{"sorting-writer", "row-buffer"} {
+	for _, subject := range []string{"sorting-writer", "row-buffer", "dedupe-writer"} {
 		kept := gen.CloneRows(model[:n])
 		check := func(when string) *core.Violation {
 			for i := range kept {
@@ -431,6 +431,23 @@ func c16KeptRows(c *core.Ctx, sh gen.Shape, pristine gen.Data) *core.Violation {
 			if v := c16FileHolds(c, sink2.Bytes(), model[:n], "sorting-writer"); v != nil {
 				return v
 			}
+		case "dedupe-writer":
+			// one row per call, as a row-at-a-time producer does
+			sink, face := env.NewSink(c, env.SinkFaces{}, nil)
+			w := parquet.NewWriter(face, sh.Schema())
+			dw := parquet.DedupeRowWriter(w, sh.Schema().Comparator(parquet.Ascending("id")))
+			for i := 0; i < n; i++ {
+				if _, err := dw.WriteRows(kept[i : i+1]); err != nil {
+					return core.Violate("C16/write-error/dedupe-writer", "%v", err)
+				}
+				if v := check("after WriteRows of one row"); v != nil {
+					return v
+				}
+			}
+			if err := w.Close(); err != nil {
+				return core.Violate("C16/write-error/dedupe-writer", "Close: %v", err)
+			}
+			_ = sink
 		case "row-buffer":
 			buf := sh.NewBuffer(gen.BRow)
 			for gen := 0; gen < 3; gen++ {
